@@ -1,18 +1,22 @@
 #!/usr/bin/env python3
 """seedcheck.py <seeded-dir> [Cxx ...]
-Applies <seeded-dir>/patch.diff to /repo, runs ./check for the given properties (default: the
-property named in meta.json), records what each check reported in <seeded-dir>/result.json,
-and ALWAYS restores /repo (git checkout -- .).  Evidence of these runs goes to a scratch
-directory, never to /verif/evidence."""
-import sys, os, json, subprocess, time, tempfile
+Creates a scratch worktree of /repo's HEAD under /tmp, applies <seeded-dir>/patch.diff THERE, runs
+./check for the given properties (default: the property named in meta.json) with
+VERIF_REPO=<worktree> (so /repo and the main build are never touched), records what each check
+reported in <seeded-dir>/result.json, and removes the worktree and its build directory.
+Evidence of these runs goes to a scratch directory, never to /verif/evidence."""
+import sys, os, json, subprocess, time, tempfile, hashlib, shutil
 ROOT = os.path.dirname(os.path.dirname(os.path.abspath(__file__)))
 d = os.path.abspath(sys.argv[1])
 meta = json.load(open(os.path.join(d, "meta.json")))
 props = sys.argv[2:] or [meta["property"]]
-assert subprocess.run(["git", "-C", "/repo", "status", "--porcelain", "--untracked-files=no"], capture_output=True, text=True).stdout.strip() == "", "/repo has local changes"
+wt = "/tmp/seedwt_" + os.path.basename(d)
+subprocess.run(["git", "-C", "/repo", "worktree", "remove", "--force", wt], capture_output=True)
+assert subprocess.run(["git", "-C", "/repo", "worktree", "add", "-q", "--detach", wt, "HEAD"]).returncode == 0
 res = {"applied": False, "checks": {}}
+alt = os.path.join(ROOT, "build", "alt_" + hashlib.sha1(wt.encode()).hexdigest()[:8])
 try:
-    p = subprocess.run(["git", "-C", "/repo", "apply", os.path.join(d, "patch.diff")], capture_output=True, text=True)
+    p = subprocess.run(["git", "-C", wt, "apply", os.path.join(d, "patch.diff")], capture_output=True, text=True)
     if p.returncode != 0:
         res["error"] = p.stderr
     else:
@@ -21,7 +25,7 @@ try:
         for pid in props:
             t0 = time.time()
             q = subprocess.run(["./check", pid, "--tier", "quick"], cwd=ROOT, capture_output=True, text=True,
-                               env=dict(os.environ, VERIF_EVIDENCE_DIR=ev))
+                               env=dict(os.environ, VERIF_EVIDENCE_DIR=ev, VERIF_REPO=wt))
             lines = [l for l in q.stdout.splitlines() if l.startswith("VIOLATION") or l.startswith("KNOWN-FINDING")]
             detail = None
             for l in lines:
@@ -34,9 +38,12 @@ try:
                     except Exception as e:
                         detail = {"error": str(e)}
             res["checks"][pid] = {"exit": q.returncode, "violation": [l[:300] for l in lines if l.startswith("VIOLATION")],
-                                  "detail": detail, "wall_s": round(time.time() - t0, 1)}
+                                  "detail": detail, "wall_s": round(time.time() - t0, 1),
+                                  "tail": q.stdout[-400:] if q.returncode not in (0, 1) else ""}
+        shutil.rmtree(ev, ignore_errors=True)
 finally:
-    subprocess.run(["git", "-C", "/repo", "checkout", "--", "."])
+    subprocess.run(["git", "-C", "/repo", "worktree", "remove", "--force", wt], capture_output=True)
+    shutil.rmtree(alt, ignore_errors=True)
 res["caught_by"] = [p for p, c in res["checks"].items() if c["exit"] == 1]
 json.dump(res, open(os.path.join(d, "result.json"), "w"), indent=1)
 print(json.dumps(res, indent=1)[:3000])
